@@ -36,6 +36,7 @@ type recStore struct {
 	plan   map[int]string
 	idx    int
 	txMode bool
+	snap   *storeSnap // store at BeginTX of the open transaction (txStore only)
 
 	fullCode map[string]string // code signature -> complete code, as minted
 
